@@ -18,6 +18,9 @@
  *   IMPURE <v-at-L0> <v> <place>    result depends on address / alignment / surroundings
  *   REFDIFF <impl> <ref>            deterministic but not the published algorithm
  *   INCDIFF <split> <inc> <oneshot> crcinc only: incremental identity fails
+ * `touch` calls every other public entry point of usual/hashing (memhash, memhash_string,
+ * siphash24_secure, …) and the measured ones with other arguments: values measured afterwards in
+ * the same process must still be the model's (history independence is part of purity).
  * `mem32` runs the XXH32 branch of memhash_seed (memhash_narrow.c: a 32-bit build's choice).
  * For `spooky` both builds of spooky.c are run at every placement: the one /repo's
  * configuration selects (direct unaligned reads) and the strict-alignment variant
@@ -41,6 +44,8 @@
 
 void spookyhash_noua(const void *message, size_t length, uint64_t *hash1, uint64_t *hash2);
 uint32_t memhash_seed_narrow(const void *data, size_t len, uint32_t seed);
+uint32_t memhash_narrow(const void *data, size_t len);
+uint32_t memhash_string_narrow(const char *s);
 
 #if defined(__SANITIZE_ADDRESS__)
 #include <sanitizer/asan_interface.h>
@@ -54,7 +59,9 @@ uint32_t memhash_seed_narrow(const void *data, size_t len, uint32_t seed);
 #endif
 
 /* csrandom() is referenced by siphash24_secure/memhash (not under test) */
-uint32_t csrandom(void) { return 4; }
+/* deterministic, never zero, different on every call */
+static uint32_t csr_state = 0x9E3779B9u;
+uint32_t csrandom(void) { csr_state = csr_state * 1664525u + 1013904223u; return csr_state | 1u; }
 
 #define PAGE 4096
 #define NPLACE 32
@@ -216,6 +223,44 @@ static void run_op(enum Kind kind, hfn fn, hfn fn2, hfn ref, const uint8_t *byte
 	putval(kind, v);
 }
 
+/* ------------------------------------------------------------------------------ history */
+/* `touch`: call every public entry point of usual/hashing/*.h — in particular the ones that
+ * are not measured (memhash, memhash_string, siphash24_secure keep process-wide state) and the
+ * measured ones with other seeds/keys and other data — so that anything a function could
+ * remember from an earlier call has been set.  The hashes are pure functions of their
+ * arguments, so every value measured after a `touch` must still be the model's value. */
+static volatile uint64_t touch_sink;
+static unsigned long n_touch;
+static void touch_all(const uint8_t *buf, size_t len)
+{
+	static const char str[] = "history must not matter";
+	uint8_t scratch[257];
+	uint64_t a, b, acc = 0;
+	size_t i, n;
+	n_touch++;
+	for (i = 0; i < sizeof scratch; i++) scratch[i] = (uint8_t)(i * 37 + n_touch);
+	acc += memhash(buf, len);
+	acc += memhash(scratch, sizeof scratch);
+	acc += memhash_string(str);
+	acc += memhash_narrow(buf, len);
+	acc += memhash_string_narrow(str);
+	acc += siphash24_secure(buf, len);
+	acc += siphash24_secure(scratch, 13);
+	for (n = 0; n <= sizeof scratch; n += (n < 34 ? 1 : 31)) {
+		uint32_t s32 = csrandom();
+		uint64_t k0 = ((uint64_t)csrandom() << 32) | csrandom(), k1 = ~k0 * 3;
+		acc += calc_crc32(scratch, n, s32);
+		acc += hash_lookup3(scratch, n);
+		acc += siphash24(scratch, n, k0, k1);
+		a = k0; b = k1; spookyhash(scratch, n, &a, &b); acc += a ^ b;
+		a = k1; b = k0; spookyhash_noua(scratch, n, &a, &b); acc += a ^ b;
+		acc += xxhash(scratch, n, s32);
+		acc += memhash_seed(scratch, n, s32);
+		acc += memhash_seed_narrow(scratch, n, ~s32);
+	}
+	touch_sink = acc;
+}
+
 /* ---------------------------------------------------------------------------- parsing */
 static int hexnum(const char *s, int maxdigits, uint64_t *out)
 {
@@ -311,7 +356,10 @@ int main(int argc, char **argv)
 		}
 		if (nw == 0 || blen < 0) { puts("bad-op"); continue; }
 		fflush(stdout);		/* keep what was printed so far if the next call faults */
-		if (strcmp(w[0], "crc") == 0 && nw == 2 && hexnum(w[1], 8, &arg[0]) == 0) {
+		if (strcmp(w[0], "touch") == 0 && nw == 1) {
+			touch_all(buf, blen);
+			printf("touched");
+		} else if (strcmp(w[0], "crc") == 0 && nw == 2 && hexnum(w[1], 8, &arg[0]) == 0) {
 			run_op(K32, f_crc, NULL, r_crc, buf, blen, arg);
 		} else if (strcmp(w[0], "crcinc") == 0 && nw == 3 && decnum(w[1], &arg[1]) == 0
 			   && hexnum(w[2], 8, &arg[0]) == 0 && arg[1] <= (uint64_t)blen) {
